@@ -52,14 +52,24 @@ Theorem C47_nonconcurrent_fifo : forall c ops st,
 Proof. exact nonconcurrent_fifo. Qed.
 Print Assumptions C47_nonconcurrent_fifo.
 
-(* REFUTED at full strength ("the request whose channel ID it carries"): the number is read with strtol into an
-   int, so the line `4294967298 X` is applied to the request on channel 2 (known finding C47-channel-number-wrapped,
-   replayed against the running proxy by the check) *)
-Theorem C47_channel_number_wraps_refuted :
-  snd (hreads cfg16 two_waiting [bytes_of [52;50;57;52;57;54;55;50;57;56;32;88;10]%nat]) = [(2, Some [88])] /\
-  line_number (bytes_of [52;50;57;52;57;54;55;50;57;56;32;88]%nat) = 2%Z.
-Proof. exact channel_number_wraps. Qed.
-Print Assumptions C47_channel_number_wraps_refuted.
+(* "the request whose channel ID it carries", exactly: the channel a reply line names is the decimal number it
+   starts with - however many digits - or no channel at all when that number does not fit an int (/repo 2adec67;
+   before that repair the number wrapped modulo 2^32: former finding C47-channel-number-wrapped, now a regression
+   scenario of the check) *)
+Theorem C47_channel_number_exact : forall ds rest,
+  ds <> [] -> forallb isdigit ds = true -> match rest with [] => True | c :: _ => isdigit c = false end ->
+  fst (strtol (ds ++ rest)) = dec_exact 0 ds \/
+  (fst (strtol (ds ++ rest)) = (-1)%Z /\ (INT_MAX < dec_exact 0 ds)%Z).
+Proof. exact channel_number_exact. Qed.
+Print Assumptions C47_channel_number_exact.
+
+(* the former witnesses: `4294967298 X` (2^32+2) and `18446744073709551618 X` (2^64+2) call nobody back *)
+Theorem C47_out_of_range_channel_number_dropped :
+  snd (hreads cfg16 two_waiting [bytes_of [52;50;57;52;57;54;55;50;57;56;32;88;10]%nat]) = [] /\
+  snd (hreads cfg16 two_waiting [bytes_of [49;56;52;52;54;55;52;52;48;55;51;55;48;57;53;53;49;54;49;56;32;88;10]%nat]) = [] /\
+  line_number (bytes_of [52;50;57;52;57;54;55;50;57;56;32;88]%nat) = (-1)%Z.
+Proof. exact out_of_range_channel_number_dropped. Qed.
+Print Assumptions C47_out_of_range_channel_number_dropped.
 
 (* REFUTED: exact equality of the reply text under fragmentation. `1 OK CR LF` in one read gives the text `OK`,
    cut between CR and LF it gives `OK CR`, which Helper::Reply::finalize does not recognise as OK
